@@ -505,15 +505,10 @@ def union_replace(facts):
                         return
                     key = "hll_union_alloc::union_impl:replace#%d" % idx[0]
                     idx[0] += 1
-                    conds = []
-                    chain = list(parents) + [n]
-                    for i, p in enumerate(chain[:-1]):
-                        if p.get("k") == "If":
-                            if p.get("t") is chain[i + 1]:
-                                conds.append(txt(p["c"]))
-                            elif p.get("e") is chain[i + 1]:
-                                conds.append("!(" + txt(p["c"]) + ")")
-                    empty = any(("dst_impl.isEmpty()" in c and not c.startswith("!(") and "!dst_impl.isEmpty()" not in c) or c.replace(" ", "") == "!(!dst_impl.isEmpty())" for c in conds)
+                    # the literals known to hold at the assignment (nesting, guard clauses, else branches, named conditions alike)
+                    conds = [txt(l).replace(" ", "") for l in reach(fn["body"], n)]
+                    empty = any(c in ("dst_impl.isEmpty()", "gadget_.sketch_impl.isEmpty()") for c in conds)
+                    conds = conds or ["(unconditional)"]
                     merged = False
                     blk = None
                     for p in reversed(parents):
